@@ -9,7 +9,7 @@
    * size arithmetic of the index section with the widths of the C variables: the as-is
      configuration (guint16 required_size) yields a counterexample whose n is the smallest entry
      count for which the compiler cannot build the index; a second run proves the failure set is
-     exactly n >= that boundary over 1..65535; the 32-bit variant holds everywhere.
+     exactly n >= that boundary over 1..65535; the 32-bit variant (Inv_Wide32) holds everywhere.
 2. Cases: name sets (sizes x styles, seeded) rendered as GIR text (constants / records / enums with
    glib:type-name, glib:error-domain) and compiled by REPO's g-ir-compiler, including the entry
    counts TLC exhibited (boundary-1, boundary); the system typelibs as corpus.
@@ -425,24 +425,21 @@ def run():
                 st1 = parse_error_trace(r1['out'])
                 if r1.get('violated') != 'Inv_IndexBuilt' or int(st1[-1][1]['n']) != boundary:
                     raise MachineryError('enumeration and bisection disagree on the smallest failing n: %s vs %d' % (st1[-1][1].get('n') if st1 else None, boundary))
-            if not fast:
-              ck.tlc_mc('DirIndexMC', 'DirIndex_bound16.cfg' if ck.quick else 'DirIndex_bound16_t.cfg', workers=8, timeout=170, coverage=False,
-                      env={'C14_BOUNDARY': str(boundary)},
-                      label='as-is arithmetic: IndexBuilt fails exactly for n >= %d (%s); monotone; section layout where it is built'
-                            % (boundary, 'chosen n and boundary +-300' if ck.quick else 'all n in 1..65535'))
         elif r['ok']:
-            ck.notes.append('the size arithmetic model (SizeBits=16 configuration) builds the index for every n: no boundary')
+            ck.notes.append('the size arithmetic model as configured builds the index for every n in 1..65535: no boundary')
         else:
             raise MachineryError('DirIndex_bisect16: %s' % r.get('error'))
         if not fast:
-          ck.tlc_mc('DirIndexMC', 'DirIndex_size32.cfg' if ck.quick else 'DirIndex_size32_t.cfg', workers=8, timeout=170, coverage=False,
-                  label='32-bit required_size: IndexBuilt and section layout for %s' % ('chosen n' if ck.quick else 'all n in 1..65535'))
+            ck.tlc_mc('DirIndexMC', 'DirIndex_bound16.cfg' if ck.quick else 'DirIndex_bound16_t.cfg', workers=8, timeout=170, coverage=False,
+                      env={'C14_BOUNDARY': str(boundary or 0)},
+                      label='size arithmetic: IndexBuilt fails exactly for n >= %s (%s); monotone; section layout where built; '
+                            '32-bit required_size always builds' % (boundary, 'chosen n and boundary +-300' if ck.quick else 'all n in 1..65535'))
         ck.cov['exhaustive'] = not fast
 
         ck.notes.append('model checking %.1fs' % (time.time() - tphase))
         tphase = time.time()
         # ---------------------------------------------------------------- 2./3. cases on the real code
-        cm, ca = (600, 1200) if ck.quick else (70000, 30000)
+        cm, ca = (600, 1200) if ck.quick else (10000, 10000)
         specs = []
         for n in SIZES_QUICK:
             styles = STYLES if n <= 9 else [STYLES[(SIZES_QUICK.index(n) + ck.seed) % len(STYLES)], 'near' if n <= 257 else 'num']
@@ -452,6 +449,7 @@ def run():
         big = []
         if boundary:
             big += [boundary - 1, boundary]           # the entry counts TLC exhibited
+        big += [27922, 27923]                         # regression: the guint16 boundary repaired by fix 838987b
         if not ck.quick:
             big += SIZES_THOROUGH
         for n in dict.fromkeys(big):
@@ -460,14 +458,17 @@ def run():
             specs.append(dict(n=20000, style='rand', mix='mixed', seed=ck.seed))
             specs.append(dict(n=(boundary or 27923) - 1, style='long', mix='mixed', seed=ck.seed))
         for sp in specs:
-            R.generated_case(sp, cm, ca)
+            if sp['n'] == 65535 and not ck.quick:
+                R.generated_case(sp, 70000, 20000)      # every member of the largest directory
+            else:
+                R.generated_case(sp, cm, ca)
         for n in SIZES_QUICK + [20000, 33000, 65535] + ([boundary - 1, boundary] if boundary else []) + ([] if ck.quick else SIZES_THOROUGH):
             if n not in R.hash_sizes:
                 R.hash_case(n, 'num')
         for n in ([300] if ck.quick else [300, 3000]):
             R.hash_case(n, 'long')
         for path in sorted(glob.glob(SYS_TYPELIBS)):
-            R.system_case(path, 400 if ck.quick else 100000)
+            R.system_case(path, 400 if ck.quick else 20000)
     else:
         if replay['kind'] == 'generated':
             R.generated_case(replay['spec'], 10 ** 6, 10 ** 6, only_probes=[tuple(x) for x in replay['probes']] if replay.get('probes') else None)
